@@ -5069,7 +5069,7 @@ class FixedSized(Subconstruct):
         return f"restream(io.read({self.length}), lambda io: ({self.subcon._compileparse(code)}))"
 
     def _emitfulltype(self, ksy, bitwise):
-        return dict(size=repr(self.length).replace("this.",""), **self.subcon._compilefulltype(ksy, bitwise))
+        return dict(size=repr(self.length).replace("this.",""), type=self.subcon._compileprimitivetype(ksy, bitwise))
 
 
 class NullTerminated(Subconstruct):
